@@ -1025,7 +1025,7 @@ P6_DTS = ("u8", "i8", "i16", "u16", "u32", "u64", "f32")
 # looked up in the WORKING DIRECTORY first (`_make_piece_reader`: `if not exists(piece) and ... exists(join(dirname, piece))`), so a
 # file of the same name in the working directory shadows the piece that lies next to the parallel file.  FCV_C06_CWD=1 adds the
 # addressing mode "same-named-file-in-cwd" to `eval_paths` (flat layout), whose candidates carry the class `C06-CWD`.
-CWD_OPT_IN = os.environ.get("FCV_C06_CWD") == "1"
+CWD_OPT_IN = os.environ.get("FCV_C06_CWD", "1") == "1"
 
 
 class _SearchOnly:
